@@ -23,14 +23,21 @@ A_SPECS = {
     "A_slow": '<start> ::= <d>+\n<d> ::= r"[0-9]"\nwhere int(str(<start>)) % 97 == 3\n',
     # an optimisation goal over the same trees as B_soft
     "A_soft": '<start> ::= <d>+\n<d> ::= r"[0-9]"\nminimizing int(str(<start>))\nwhere len(str(<start>)) < 7\n',
+    # the texts that B_regex_text uses as regexes, here as plain string literals (and the other way round)
+    "A_literal_text": '<start> ::= "[a-z]+" "=" "[0-9]+"\n',
+    "A_regex_text": '<start> ::= r"[a-z]+" "=" r"[0-9]+"\n',
+    # protocol mode: two messages sent by the fuzzer, the first one stagnates (the tuner raises the repetition cap per message)
+    "A_io": "<start> ::= <StdOut:first> <StdOut:second>\n<first> ::= 'A' <n> '\\n'\n<second> ::= 'B' <n> '\\n'\n<n> ::= <d>+\n<d> ::= '0' | '1' | '2' | '3' | '4' | '5' | '6' | '7' | '8' | '9'\nwhere int(str(<first>.<n>)) % 97 == 13\n",
 }
 B_SPECS = {
     "B_star": ('<start> ::= "a"* <y>\n<y> ::= "b"+ | "c"{2,}\n', "aabb"),
     "B_constrained": ('<start> ::= <x>* ";"\n<x> ::= "a" | "bb"\nwhere len(str(<start>)) > 3\n', "abba;"),
     "B_same_words": ('<start> ::= <x>*\n<x> ::= "a" | "b"\nwhere len(str(<start>)) == 4\n', "abab"),
     "B_soft": ('<start> ::= <d>+\n<d> ::= r"[0-9]"\nmaximizing str(<start>).count("7")\nwhere len(str(<start>)) < 7\n', "7747"),
+    "B_regex_text": ('<start> ::= <k> "=" <v>\n<k> ::= r"[a-z]+"\n<v> ::= r"[0-9]+"\n', "abc=123"),
+    "B_literal_text": ('<start> ::= <k> "=" <v>\n<k> ::= "[a-z]+" | "k"\n<v> ::= "[0-9]+" | "7"\n', "[a-z]+=[0-9]+"),
 }
-OPS = ["A.fuzz", "A.fuzz_long", "A.fuzz_until_found", "A.parse", "C.construct", "C.fuzz"]  # activity on OTHER spec objects only
+OPS = ["A.fuzz", "A.fuzz_long", "A.fuzz_until_found", "A.parse", "A.construct", "A.fuzz_io", "C.construct", "C.fuzz"]  # activity on OTHER spec objects only
 
 
 def fingerprint():
@@ -53,14 +60,31 @@ def observe_b(b):
 
 def run_history(task):
     from mc.fd import build, snap
-    a_name, b_name, hist = task
+    a_name, b_name, hist = task[:3]
+    late = len(task) > 3 and task[3]     # B is constructed only after the activity on the other objects
     b_text, b_word = B_SPECS[b_name]
     a = c = None
-    b = build(b_text)
+    b = None if late else build(b_text)
     for op in hist:
         try:
             if op.startswith("A") and a is None:
                 a = build(A_SPECS[a_name])
+            if op == "A.fuzz_io":
+                if a_name == "A_io":
+                    import os, sys
+                    from fandango.language.grammar import FuzzingMode
+                    sys.stdout.flush()
+                    saved = os.dup(1)
+                    devnull = os.open(os.devnull, os.O_WRONLY)
+                    os.dup2(devnull, 1)      # the StdOut party writes the messages to the process's standard output
+                    try:
+                        a.fuzz(mode=FuzzingMode.IO, desired_solutions=1, max_generations=30, population_size=10, random_seed=1)
+                    finally:
+                        sys.stdout.flush()
+                        os.dup2(saved, 1)
+                        os.close(saved)
+                        os.close(devnull)
+                continue
             if op == "A.fuzz":
                 a.fuzz(desired_solutions=2, max_generations=3, population_size=6, random_seed=5)
             elif op == "A.fuzz_long":
@@ -83,7 +107,9 @@ def run_history(task):
         except Exception:
             pass
     fp = fingerprint()
-    sols, err = observe_b(build(b_text) if False else b)
+    if b is None:
+        b = build(b_text)
+    sols, err = observe_b(b)
     forest = [repr(snap(t)) for t in b.parse(b_word)]
     return {"solutions": sols, "error": err, "forest": forest, "fingerprint": fp}
 
@@ -95,13 +121,34 @@ def run(ctx: Ctx) -> None:
         hists += list(itertools.product(OPS, repeat=d))
     # histories that only touch B itself before the observation are about B's own state, not about other instances: B-ops only count in combination
     hists = [h for h in hists if not h or any(not op.startswith("B") for op in h)] + [()]
-    pairs = [(a, b) for a in A_SPECS for b in B_SPECS if (a == "A_soft") == (b == "B_soft") or a == "A_slow"]
-    tasks = rotate([(a, b, h) for (a, b) in pairs for h in dict.fromkeys(hists)], ctx.seed)
+    special = {"A_literal_text": ["B_regex_text"], "A_regex_text": ["B_literal_text"], "A_io": ["B_star", "B_constrained"]}
+    plain_b = [b for b in B_SPECS if b not in ("B_soft", "B_regex_text", "B_literal_text")]
+    pairs = []
+    for a in A_SPECS:
+        if a in special:
+            pairs += [(a, b) for b in special[a]]
+        elif a == "A_soft":
+            pairs += [(a, "B_soft")]
+        else:
+            pairs += [(a, b) for b in plain_b] + ([(a, "B_soft")] if a == "A_slow" else [])
+    def relevant(a, h):
+        # operations that need a particular A are only run with it; the literal/regex pairs need no long fuzzing of A
+        if "A.fuzz_io" in h and a != "A_io":
+            return False
+        if a in ("A_literal_text", "A_regex_text") and any(op in ("A.fuzz_long", "A.fuzz_until_found", "A.fuzz_io") for op in h):
+            return False
+        if a == "A_io" and any(op in ("A.fuzz_long", "A.fuzz_until_found", "A.fuzz") for op in h):
+            return False
+        return True
+    tasks = [(a, b, h, False) for (a, b) in pairs for h in dict.fromkeys(hists) if relevant(a, h)]
+    # the same histories with B constructed only AFTER the activity on the other objects (histories up to length 2)
+    tasks += [(a, b, h, True) for (a, b) in pairs for h in dict.fromkeys(hists) if h and len(h) <= 2 and relevant(a, h)]
+    tasks = rotate(tasks, ctx.seed)
     ctx.log(f"{len(tasks)} histories, each in its own process")
     results = pmap_tagged(run_history, tasks, chunk=1, fresh=True)
     base = {}
     for t, r in zip(tasks, results):
-        if t[2] == ():
+        if t[2] == () and not t[3]:
             base[(t[0], t[1])] = r
     fps = set()
     for t, r in zip(tasks, results):
@@ -110,7 +157,7 @@ def run(ctx: Ctx) -> None:
         if (r["solutions"], r["error"], r["forest"]) != (ref["solutions"], ref["error"], ref["forest"]):
             what = [k for k in ("solutions", "error", "forest") if r[k] != ref[k]]
             changed = {k: [ref["fingerprint"][k], v] for k, v in r["fingerprint"].items() if ref["fingerprint"][k] != v}
-            ctx.violation({"kind": "instance_influenced_by_earlier_activity", "A": t[0], "B": t[1], "history": list(t[2]), "differs_in": what,
+            ctx.violation({"kind": "instance_influenced_by_earlier_activity", "A": t[0], "B": t[1], "history": list(t[2]), "b_constructed_after_history": bool(t[3]), "differs_in": what,
                            "alone": repr(ref["solutions"])[:200], "after_history": repr(r["solutions"])[:200], "module_state_changed": changed,
                            "max_repetitions_changed": "nodes.MAX_REPETITIONS" in changed,
                            "sig": f"{t[1]}:{'+'.join(what)}:state={sorted(changed)}"})
